@@ -8,7 +8,7 @@ import traceback
 import os
 
 
-class AssumeViolated(Exception):
+class AssumeViolated(BaseException):
     """real side: the concrete witness does not satisfy a harness precondition."""
 
 
